@@ -82,11 +82,12 @@ class C05(Prop):
         from harness.props import c01
         k = 0
         for c in c01.PROP.cases(rng, 'quick' if tier == 'quick' else 'thorough'):
-            if c.get('kind') != 'reconnect' and c.get('frag') and not c.get('lease'):
+            if c.get('kind') != 'reconnect' and c.get('frag') and not c.get('lease') and k < (80 if tier == 'quick' else 1500):
                 out.append({'kind': 'pair', 'c01': c})
                 k += 1
-                if k >= (80 if tier == 'quick' else 1500):
-                    break
+            elif c.get('kind') == 'reconnect':
+                # (also across reconnects: what a previous connection left half-received must not be merged into the frames of the next)
+                out.append({'kind': 'pair', 'c01': c})
         return out
 
     # ---------------------------------------------------------------------------------------
